@@ -20,6 +20,7 @@ func c08Entry(name string) database.Command {
 		Description: c08Atom(name + ".desc"),
 		Niche:       c08Atom(name + ".niche"),
 		Pipeline:    verifBool(name + ".pipeline"),
+		Tags:        []string{"tg"}, // a field the save commands never set themselves (hand-edited notebooks have it)
 	}
 	if verifBool(name + ".hasKw") {
 		c.Keywords = []string{c08Atom(name + ".kw")}
@@ -34,8 +35,13 @@ func c08SameEntry(a, b database.Command) bool {
 	if a.Command != b.Command || a.Description != b.Description || a.Niche != b.Niche || a.Pipeline != b.Pipeline {
 		return false
 	}
-	if len(a.Keywords) != len(b.Keywords) || len(a.Platform) != len(b.Platform) {
+	if len(a.Keywords) != len(b.Keywords) || len(a.Platform) != len(b.Platform) || len(a.Tags) != len(b.Tags) {
 		return false
+	}
+	for i := range a.Tags {
+		if a.Tags[i] != b.Tags[i] {
+			return false
+		}
 	}
 	for i := range a.Keywords {
 		if a.Keywords[i] != b.Keywords[i] {
